@@ -775,6 +775,16 @@ def main():
     rng = random.Random(o["seed"] * 1000003 + o["shard"] * 7919 + 1)
     scratch = o["scratch"]
     os.makedirs(scratch, exist_ok=True)
+    # self-test of the harness: the helper must run and log by itself, the binary under test must exist
+    st = os.path.join(scratch, "selftest.log")
+    try:
+        subprocess.run([VCHILD, st, "selftest", "--exit-after", "1", "--no-overlap-probe"], timeout=10, stdin=subprocess.DEVNULL)
+    except (OSError, subprocess.TimeoutExpired) as e:
+        sys.stderr.write("wxcli: the vchild helper cannot be run (%s): harness error\n" % e)
+        sys.exit(3)
+    if not any(l["ev"] == "start" for l in read_log(st)) or not os.access(WATCHEXEC, os.X_OK):
+        sys.stderr.write("wxcli: helper self-test failed or %s is missing: harness error\n" % WATCHEXEC)
+        sys.exit(3)
     deadline = time.time() + o["budget"]
     idx = [0]
     lock = threading.Lock()
